@@ -176,7 +176,8 @@ class Harness:
             else:
                 o = Rec(key, sid, w.model, decode_prio(prio))
             w.objs[key] = o
-            w.prio[key] = int(o.priority)   # the collector's default is read off the real object: "default -1" is
+            w.prio[key] = int(o.priority) if prio is None else int(decode_prio(prio))
+            # the reference goes by the DECLARED priority (the collector's default is read off the real object: "default -1" is
             #                            asserted separately below
         w.win = {e[0]: window(e) for e in self.pool}
         w.freq = {e[0]: freq_of(e) for e in self.pool}
